@@ -47,6 +47,7 @@ Why(e) ==
   ELSE IF Len(pm) = Len(pp) /\ \E k \in DOMAIN pm : Identical(pm[k], pp[k]) /\ ~(NoEmph(pm[k]) /\ NoEmph(pp[k]))
        THEN "emph-on-identical"
   ELSE IF Len(ms) = 1 /\ Len(ps) = 1 /\ ~SingleRun(e.re, ms[1], ps[1]) THEN "single-run"
+  ELSE IF Len(ms) = 1 /\ Len(ps) = 1 /\ ~JoinedRun(e.re, ms[1], ps[1]) THEN "joined-run"
   \* threshold 1: i-th with i-th
   \* (a line whose pairing cannot be seen - empty, or only whitespace-error characters - is skipped)
   ELSE IF e.thr = 100 /\ \E i \in DOMAIN ms : Visible(ms[i]) /\ ms[i].p # (i <= Min(Len(ms), Len(ps))) THEN "dist1-minus"
